@@ -289,6 +289,39 @@ def run(ctx):
                 cell_dm.append(i)
     ctx.check(len(cell_dm) == 1 and cell_dm[0]["self_head"]["adt"] in KA["owner"], "R06.4", MQ + "#only-owner-derefs-mut-to-cell", "",
               "mutable access to the shared cell is offered by %s" % [i["self_ty"] for i in cell_dm])
+    # ------------------------------------------------------------------ R06.5 the release slot is armed once, where it is created
+    # the guards share one `Option<release action>`; a force-flush guard empties it, and from then on the owner alone keeps the entry
+    # ("present and future flush guards" no longer delay it). So nothing may put a release action back: the slot becomes `Some` only
+    # by being *created* that way (`Mutex::new(Some(..))`); no `get_or_insert*` / `insert` / `replace` / assignment through a
+    # `&mut Option<release action>` anywhere in the crate
+    # the slot by role: the `Option<Box<dyn ..>>` (closure or release object) that some body of the crate empties with `take()`
+    slot_tys = {b.local_ty(op_local(c.args[0])) for b in lib for c in b.calls()
+                if c.name == "take" and c.args and op_local(c.args[0]) is not None and
+                b.local_ty(op_local(c.args[0])).startswith("&mut core::option::Option<alloc::boxed::Box<dyn ")}
+    def _slot_ty(t):
+        return t in slot_tys
+    rearm, n_takes = [], 0
+    for b in lib:
+        for c in b.calls():
+            a0 = op_local(c.args[0]) if c.args else None
+            if a0 is None or not _slot_ty(b.local_ty(a0)):
+                continue
+            if c.name == "take":
+                n_takes += 1
+            elif c.name in ("get_or_insert_with", "get_or_insert", "get_or_insert_default", "insert", "replace", "swap", "write"):
+                rearm.append((b, c.bb, c.name))
+        for i in b.live_blocks():
+            for st_ in b.stmts(i):
+                if st_["k"] == "assign" and st_["lhs"].get("p") and [e[0] for e in st_["lhs"]["p"]] == ["deref"] and _slot_ty(b.local_ty(st_["lhs"]["l"])):
+                    o_ = Prov(b).operand(st_["rv"]["op"]) if st_["rv"]["k"] == "use" else {("agg", st_["rv"].get("adt"), st_["rv"].get("variant"))}
+                    if not o_ or any(x[0] != "agg" or x[2] != "None" for x in o_ if x[0] != "via"):
+                        rearm.append((b, i, "assignment"))
+    ctx.check(not rearm, "R06.5", MQ + "#release-slot-armed-only-at-creation", loc(rearm[0][0], rearm[0][1]) if rearm else "",
+              "the guards' release slot is (re)filled after its creation (%s in %s): a flush guard created after a force-flush guard was dropped "
+              "re-arms it and keeps the entry alive again - the owner's drop no longer emits the entry" % (
+                  rearm[0][2] if rearm else "", rearm[0][0].path if rearm else ""),
+              "no store of a release action into an existing slot; %d take site(s) on the slot type" % n_takes)
+    ctx.floor("R06.5", "take sites on the release slot (shows the slot type is recognised)", n_takes, 1)
     # compile-fail witnesses (type-level part of the property), discharged by rustc's type checker
     from mq import witness as _w
     _w.report_cf(ctx, "W06", _w.run_witness(), "C06")
